@@ -502,6 +502,26 @@ func recordFrames(body []byte) {
 
 // ---- errors that direct access reports must reach the remote client
 
+// failingZio delivers [at] values and then fails.
+type failingZio struct {
+	zctx *zed.Context
+	n    int
+	at   int
+	base int
+}
+
+func (f *failingZio) Read() (*zed.Value, error) {
+	if f.n >= f.at {
+		return nil, errors.New("input reader failed midway")
+	}
+	f.n++
+	val, err := zson.ParseValue(f.zctx, fmt.Sprintf("{k:%d,id:%d}", f.n, f.base+f.n))
+	if err != nil {
+		return nil, err
+	}
+	return &val, nil
+}
+
 type failingReader struct {
 	data []byte
 	pos  int
@@ -598,6 +618,27 @@ func errorsSurface(res *Result, work string) error {
 		return err
 	})
 	check("create-existing-pool", e1, e2)
+
+	// input faults through the lake handle's own Load (lake/api: the remote
+	// handle re-encodes the caller's zio.Reader into the request body): a reader
+	// that fails after k values, and ZSON text with a syntax error on a later line
+	for _, at := range []int{1, 3} {
+		e1, e2 := both(func(s *side) error {
+			zctx := zed.NewContext()
+			_, err := s.api.Load(ctx, zctx, s.lr.PoolID, "main", &failingZio{zctx: zctx, at: at, base: 950}, Msg())
+			return err
+		})
+		check(fmt.Sprintf("handle-load-reader-fails-after-%d-values", at), e1, e2)
+	}
+	{
+		e1, e2 := both(func(s *side) error {
+			zctx := zed.NewContext()
+			zr := zsonio.NewReader(zctx, strings.NewReader("{k:1,id:960}\n{k:2,id:961}\n{k:3,id:962}\n{this is not zson"))
+			_, err := s.api.Load(ctx, zctx, s.lr.PoolID, "main", zr, Msg())
+			return err
+		})
+		check("handle-load-zson-syntax-error-on-a-later-line", e1, e2)
+	}
 
 	// a load whose input fails midway: direct access returns the error and commits nothing
 	big, err := encode("zson", strings.Repeat("{k:7,id:70}\n{k:8,id:80}\n", 40))
